@@ -12,6 +12,8 @@ import (
 	"os"
 	"os/exec"
 	"path/filepath"
+	"runtime/debug"
+	"runtime/pprof"
 	"sort"
 	"strconv"
 	"strings"
@@ -50,26 +52,42 @@ type harnessSpec struct {
 }
 
 func main() {
+	if pf := os.Getenv("VERIF_CPUPROFILE"); pf != "" {
+		f, err := os.Create(pf)
+		if err == nil {
+			pprof.StartCPUProfile(f)
+			defer pprof.StopCPUProfile()
+		}
+	}
+	debug.SetGCPercent(1000)
+	debug.SetMemoryLimit(40 << 30)
+	code := realMain()
+	pprof.StopCPUProfile()
+	os.Exit(code)
+}
+
+func realMain() int {
 	if len(os.Args) < 2 {
 		fmt.Fprintln(os.Stderr, "usage: verifeng check <property> [--tier quick|thorough] | run <harness-name> | list")
-		os.Exit(2)
+		return 2
 	}
 	switch os.Args[1] {
 	case "check":
-		os.Exit(cmdCheck(os.Args[2:]))
+		return cmdCheck(os.Args[2:])
 	case "list":
 		specs, err := loadSpecs("")
 		if err != nil {
 			fmt.Fprintln(os.Stderr, err)
-			os.Exit(2)
+			return 2
 		}
 		for _, s := range specs {
 			fmt.Printf("%s\t%s\t%s\t%v\n", s.Name, s.PkgRel, s.Func, keys(s.Tiers))
 		}
 	default:
 		fmt.Fprintln(os.Stderr, "unknown command")
-		os.Exit(2)
+		return 2
 	}
+	return 0
 }
 
 func keys(m map[string]bool) []string {
